@@ -262,7 +262,7 @@ func (e *Engine) externalModel(fr *frame, ins ssa.Instruction, name string, fn *
 		t := ""
 		for i := 0; i < n; i++ {
 			p := e.elemPtr(s, bt, bvLit(uint64(i), 64))
-			b := e.loadLeaf(heap, p, "", SI8)
+			b := e.loadLeaf(heap, p, "", SI8, false)
 			if t == "" {
 				t = b
 			} else {
